@@ -3,6 +3,7 @@ package engines
 
 import (
 	"harness/flags"
+	"harness/order"
 	"harness/sim"
 	"harness/varexp"
 	"harness/world"
@@ -26,6 +27,8 @@ func Lookup(prop string) Engine {
 	switch prop {
 	case "C19":
 		return func(r *sim.R) { flags.Run(r, steps(r, 8, 14)) }
+	case "C09":
+		return func(r *sim.R) { order.Run(r, steps(r, 6, 24)) }
 	case "C02", "C08":
 		return func(r *sim.R) { varexp.Run(r, prop, steps(r, 6, 12)) }
 	}
